@@ -113,8 +113,12 @@ class HashFileDB(ObjectDB):
                 if verify:
                     self.check(o, check_hash=True)
                 self.protect(cache_path)
-            except (ObjectFormatError, FileNotFoundError):
+            except FileNotFoundError:
                 pass
+            except ObjectFormatError as exc:
+                # check() has removed the mismatching object: it did not arrive
+                if on_error is not None:
+                    on_error(o, exc)
 
         self.state.save_many(
             (
